@@ -303,10 +303,33 @@ func spellNumber(r *rand.Rand, v interface{}) string {
 		}
 		return altSpell(r, d)
 	}
+	f := v.(float64)
+	s := ""
 	if r.Intn(2) == 0 {
-		return strconv.FormatFloat(v.(float64), 'g', -1, 64)
+		s = strconv.FormatFloat(f, 'g', -1, 64)
+	} else {
+		s = altSpell(r, d)
 	}
-	return altSpell(r, d)
+	// A digits-only text is an integer literal and denotes exactly that
+	// integer; the shortest decimal of a float64 beyond 2^53 is not its exact
+	// value, so such a float must keep a fraction or exponent.
+	if digitsOnly(s) && model.NumCanon(f) != s {
+		s = strconv.FormatFloat(f, 'e', -1, 64)
+	}
+	return s
+}
+
+func digitsOnly(s string) bool {
+	s = strings.TrimPrefix(s, "-")
+	if s == "" {
+		return false
+	}
+	for i := 0; i < len(s); i++ {
+		if s[i] < '0' || s[i] > '9' {
+			return false
+		}
+	}
+	return true
 }
 
 func numberClass(s string) string {
